@@ -99,10 +99,13 @@ def impl_variant(kind, cfg, x, extra):
 
 
 # ----------------------------------------------------------------------------- oracle on real numerics
-def oracle_real(kind, x, opts, rng_seed):
-    """the property on real numerics; returns (fails, path)"""
+def oracle_real(kind, x, opts, rng_seed, dtype=None):
+    """the property on real numerics; returns (fails, path).  dtype (classic and masked sift only): the signal is handed over as
+    integer counts / single precision; the peeling identity is the same statement about that array"""
     from emd import sift
     x = np.asarray(x, dtype=float)
+    if dtype and kind in ('sift', 'mask'):
+        x, _ = siftcore.as_dtype(x, dtype)
     N = len(x)
     imf_opts, envelope_opts, extrema_opts = opts
     kw = dict(imf_opts=imf_opts, envelope_opts=envelope_opts, extrema_opts=extrema_opts)
@@ -317,14 +320,17 @@ def run(ctx):
         opts = siftcore.real_opts(ctx.rng)
         if opts[0].get('max_iters', 1000) < 50 and opts[0]['stop_method'] != 'fixed':
             opts[0]['max_iters'] = 1000
-        fails, path = oracle_real(kind, x, opts, ctx.seed * 1000 + i)
+        dt = [None, 'int64', 'int16', 'float32'][(i // 5) % 4] if kind in ('sift', 'mask') else None
+        if dt:
+            ctx.hist['dtype-%s-%s' % (kind, dt)] += 1
+        fails, path = oracle_real(kind, x, opts, ctx.seed * 1000 + i, dtype=dt)
         if path == 'timeout':
             ctx.discarded += 1
             continue
         ctx.count(('real', kind, fam, len(x), repr(opts)), True, 'real-%s-%s' % (kind, path))
         ctx.tol_cmp += 1
         for f in fails[:1]:
-            ctx.problem('impl-violation', kind, f, input=dict(kind='real-' + kind, signal=[float(v) for v in x], opts=list(opts), seed=ctx.seed * 1000 + i),
+            ctx.problem('impl-violation', kind, f, input=dict(kind='real-' + kind, signal=[float(v) for v in x], opts=list(opts), seed=ctx.seed * 1000 + i, dtype=dt),
                         tags=dict(mode='real', family=fam))
     if bad and not any(p['kind'] == 'impl-violation' for p in ctx.problems):
         kind, inp, got, exp = bad[0]
@@ -339,7 +345,7 @@ def replay(rec):
         opts = i['opts']
         if 'rilling_thresh' in opts[0]:
             opts[0]['rilling_thresh'] = tuple(opts[0]['rilling_thresh'])
-        f, _ = oracle_real(k[5:], np.array(i['signal']), tuple(opts), i['seed'])
+        f, _ = oracle_real(k[5:], np.array(i['signal']), tuple(opts), i['seed'], dtype=i.get('dtype'))
         for x in f:
             print(x)
         return bool(f)
